@@ -186,9 +186,13 @@ def run_case(case):
     gain = 8.0 if order == 1 else 64.0
     # ---- (b) exact oracle: autograd through a recomposition of the same forward
     x2 = torch.tensor(x, requires_grad=True)
-    Zr = recompose(layer, x2, order)
+    try:
+        Zr = recompose(layer, x2, order)
+    except Exception:       # noqa: the internals the recomposition borrows were refactored away: fall back to (a)
+        Zr = None
+        r.label('recomposition_unavailable')
     scale = max(gain * core.maxabs(x) + bias, 1e-300)
-    if Zr.shape == Z.shape and float((Zr - Z).abs().max()) <= 1e-12 * scale:
+    if Zr is not None and Zr.shape == Z.shape and float((Zr - Z).abs().max()) <= 1e-12 * scale:
         r.label('exact_oracle_used')
         Gr, = torch.autograd.grad(_loss(Zr, g, False), x2)
         tol = 1e-9 * max(np.abs(gz).max() * gain, 1e-300)
